@@ -24,9 +24,18 @@ import (
 
 // c15scriptA is the observed session's script: static (no adaptive choices), so that its
 // trace is a function of the gateway's behaviour towards this session only.
-func c15scriptA(rng *rand.Rand, tag string) []Step {
+func c15scriptA(rng *rand.Rand, tag string, auth bool) []Step {
 	id := []string{"cl", "a"}[rng.Intn(2)]
-	st := []Step{snStep(snref.Connect(id, 30, rng.Intn(3) == 0, true))}
+	will := rng.Intn(3) == 0 || (auth && rng.Intn(2) == 0)
+	st := []Step{snStep(snref.Connect(id, 30, will, true))}
+	if auth {
+		st = append(st, snStep(snref.AuthPlain("user-"+tag, []byte("secret-"+tag))))
+	}
+	if will {
+		// the will dialogue as separate steps (the observed peer does not answer the requests by
+		// itself): other sessions act between this session's AUTH and its MQTT CONNECT
+		st = append(st, snStep(snref.WillTopic("will/"+tag, 1, false)), snStep(snref.WillMsg([]byte("bye-"+tag))))
+	}
 	mid := uint16(0)
 	next := func() uint16 { mid++; return mid }
 	n := 6 + rng.Intn(14)
@@ -75,8 +84,8 @@ func c15other(rng *rand.Rand, k int) []Step {
 	var st []Step
 	if rng.Intn(8) > 0 {
 		st = append(st, snStep(snref.Connect(id, uint16(1+rng.Intn(100)), rng.Intn(3) == 0, rng.Intn(2) == 0)))
-		if rng.Intn(3) == 0 {
-			st = append(st, snStep(snref.AuthPlain("user"+fmt.Sprint(k), []byte("pw"))))
+		if rng.Intn(2) == 0 {
+			st = append(st, snStep(snref.AuthPlain("user"+fmt.Sprint(k), []byte("other-password-"+strings.Repeat("x", rng.Intn(12))))))
 		}
 	}
 	mid := uint16(0)
@@ -124,7 +133,7 @@ func c15run(t *testing.T, cfg world.GWConfig, scriptA []Step, others [][]Step, o
 	bubble(t, func() {
 		w := world.New(cfg)
 		b := world.NewBroker(world.BrokerCfg{FirstID: 30000, Route: true})
-		sA := w.NewSession(peerHandler(PeerOpts{WillTopic: "w/a", WillMsg: []byte("a")}), b.Handler())
+		sA := w.NewSession(peerHandler(PeerOpts{NoWillReply: true}), b.Handler())
 		var ss []*world.Session
 		for range others {
 			ss = append(ss, w.NewSession(peerHandler(PeerOpts{WillTopic: "w/o", WillMsg: []byte("o")}), b.Handler()))
@@ -217,10 +226,13 @@ func c15bubbleCase(t *testing.T, r *rt.Run, c *rt.Case) {
 	rng := c.Rand()
 	tag := fmt.Sprintf("A%d", c.I)
 	cfg := world.GWConfig{Predefined: stdPredefined(), RetryDelay: 10 * time.Second, RetryCount: 1}
-	if rng.Intn(3) == 0 {
-		cfg.User, cfg.Password = strp("gwuser"), []byte("gwpass")
+	cfg.Auth = rng.Intn(3) == 0
+	if rng.Intn(3) == 0 || (cfg.Auth && rng.Intn(3) > 0) {
+		// default broker credentials of the gateway; a long password, so that a session which
+		// (wrongly) wrote its own into this shared buffer would not have to reallocate
+		cfg.User, cfg.Password = strp("gwuser"), bytes.Repeat([]byte("G"), 40)
 	}
-	scriptA := c15scriptA(rng, tag)
+	scriptA := c15scriptA(rng, tag, cfg.Auth)
 	nOthers := 1 + rng.Intn(7)
 	var others [][]Step
 	for k := 0; k < nOthers; k++ {
@@ -283,7 +295,7 @@ func c15bubbleCase(t *testing.T, r *rt.Run, c *rt.Case) {
 	}
 	// nothing of the observed session may show up in another session's traffic
 	for _, e := range all {
-		if e.Sess != 0 && len(e.B) > 0 && bytes.Contains(e.B, []byte(tag+"-")) {
+		if e.Sess != 0 && len(e.B) > 0 && (bytes.Contains(e.B, []byte(tag+"-")) || bytes.Contains(e.B, []byte("-"+tag))) {
 			c.Violation("payload-leaked-to-other-session|"+e.Kind, fmt.Sprintf("data of the observed session appeared on session %d's %s link", e.Sess, e.Kind), map[string]interface{}{"event": e.String(), "observed_script": sa})
 			break
 		}
@@ -319,7 +331,7 @@ var c15sockMu sync.Mutex
 func c15socketCase(t *testing.T, r *rt.Run, c *rt.Case, variant int) {
 	c15sockMu.Lock()
 	defer c15sockMu.Unlock()
-	nPeers := 2 + variant*3
+	nPeers := []int{2, 6, 8}[variant%3] // even: the peer accepted last is one that stays
 	c.Desc = fmt.Sprintf("real sockets: Gateway.ListenAndServe on loopback UDP, fake TCP broker, %d peers", nPeers)
 	ln, err := net.Listen("tcp", "127.0.0.1:0")
 	if err != nil {
@@ -412,9 +424,11 @@ func c15socketCase(t *testing.T, r *rt.Run, c *rt.Case, variant int) {
 	type peerRes struct {
 		got  []*snref.Pkt
 		errs []string
+		dead []string
 	}
 	res := make([]peerRes, nPeers)
-	var wg sync.WaitGroup
+	var wg, phase1 sync.WaitGroup
+	phase1.Add(nPeers)
 	for i := 0; i < nPeers; i++ {
 		wg.Add(1)
 		go func(i int) {
@@ -444,20 +458,40 @@ func c15socketCase(t *testing.T, r *rt.Run, c *rt.Case, variant int) {
 				}
 				return nil
 			}
+			time.Sleep(time.Duration(i) * 25 * time.Millisecond) // peers are accepted in index order
 			conn.Write(snref.Connect(id, 30, false, true).Encode())
 			if read(snref.CONNACK) == nil {
 				res[i].errs = append(res[i].errs, "no CONNACK")
+				phase1.Done()
 				return
 			}
 			conn.Write(snref.SubscribeName(uint16(100+i), 0, "ab").Encode())
 			if read(snref.SUBACK) == nil {
 				res[i].errs = append(res[i].errs, "no SUBACK")
+				phase1.Done()
 				return
 			}
 			conn.Write(snref.Publish(2, snref.ShortID("zz"), uint16(200+i), 1, false, false, []byte("from-"+id)).Encode())
 			read(snref.PUBLISH)
 			read(snref.PUBACK)
-			time.Sleep(200 * time.Millisecond)
+			// staged endings: the even peers leave one after the other, every other peer
+			// must still be served after each departure
+			phase1.Done()
+			phase1.Wait()
+			if i%2 == 0 {
+				time.Sleep(time.Duration(i) * 30 * time.Millisecond)
+				conn.Write(snref.Disconnect().Encode())
+				read(snref.DISCONNECT)
+				return
+			}
+			for k := 0; k < 4; k++ {
+				time.Sleep(80 * time.Millisecond)
+				conn.Write(snref.Pingreq("").Encode())
+				if read(snref.PINGRESP) == nil {
+					res[i].dead = append(res[i].dead, fmt.Sprintf("no PINGRESP for ping %d (other peers had disconnected meanwhile)", k))
+					return
+				}
+			}
 		}(i)
 	}
 	wg.Wait()
@@ -472,6 +506,11 @@ func c15socketCase(t *testing.T, r *rt.Run, c *rt.Case, variant int) {
 		}
 	}
 	witness := map[string]interface{}{"peers": nPeers, "broker_connections": len(cs)}
+	for i := range res {
+		if len(res[i].dead) > 0 {
+			c.Violation("sockets|session-killed-by-another-peer", fmt.Sprintf("peer %d: %v", i, res[i].dead), witness)
+		}
+	}
 	if len(cs) != nPeers {
 		c.Violation("sockets|broker-connection-count", fmt.Sprintf("%d MQTT-SN peer addresses produced %d broker connections", nPeers, len(cs)), witness)
 	}
@@ -529,5 +568,5 @@ func TestC15(t *testing.T) {
 		}
 		c15bubbleCase(t, r, c)
 	})
-	r.Finish("non-interference by differential replay: a static lock-step script (CONNECT, REGISTER/SUBSCRIBE/PUBLISH with registered, predefined and short IDs, broker messages, PINGREQ, a sleep cycle, time advances, DISCONNECT) is run against the real gateway session handler alone (twice, in fresh worlds, cases running one after the other: bisquitt uses no randomness, so a difference between the two solo traces means that state left behind by earlier sessions influences later ones and is reported) and then beside 1-7 other sessions of the same Gateway value (shared handler configuration and predefined-topic map) that run random scripts without time advances: same or different client IDs, AUTH packets, registrations of the same names, bursts of 20 subscriptions, random packets of all types, undecodable datagrams, sleep requests, broker close/garbage, shutdown of that session, DISCONNECT. Oracle: the observed session's own events are identical - one sequence per link direction plus the dial/close/end events, with bytes and virtual timestamps; packets of one direction at one virtual instant compared as a multiset, and none of its payloads appears on another session's links. Plus 3 real-socket cases: Gateway.ListenAndServe on loopback UDP with 2/5/8 peers and a fake TCP broker: one broker connection per peer address, each carrying exactly that peer's client ID and messages; every peer receives only its own acknowledgements and the message the broker sent on its connection.", nil)
+	r.Finish("non-interference by differential replay: a static lock-step script (CONNECT, REGISTER/SUBSCRIBE/PUBLISH with registered, predefined and short IDs, broker messages, PINGREQ, a sleep cycle, time advances, DISCONNECT) is run against the real gateway session handler alone (twice, in fresh worlds, cases running one after the other: bisquitt uses no randomness, so a difference between the two solo traces means that state left behind by earlier sessions influences later ones and is reported) and then beside 1-7 other sessions of the same Gateway value (shared handler configuration and predefined-topic map) that run random scripts without time advances: same or different client IDs, AUTH packets, registrations of the same names, bursts of 20 subscriptions, random packets of all types, undecodable datagrams, sleep requests, broker close/garbage, shutdown of that session, DISCONNECT. Oracle: the observed session's own events are identical - one sequence per link direction plus the dial/close/end events, with bytes and virtual timestamps; packets of one direction at one virtual instant compared as a multiset, and none of its payloads appears on another session's links. Plus 3 real-socket cases: Gateway.ListenAndServe on loopback UDP with 2/6/8 peers (connecting one after the other) and a fake TCP broker: one broker connection per peer address, each carrying exactly that peer's client ID and messages; every peer receives only its own acknowledgements and the message the broker sent on its connection; then the even peers disconnect one after the other while the odd ones go on pinging and must be answered. In a third of the worlds authentication is on: the observed session sends its own credentials and a will in separate steps, the others send theirs in between.", nil)
 }
